@@ -236,7 +236,7 @@ def plan(tier: str):
     items: List[Tuple[str, Any]] = []
     for i, a in enumerate(AT.ATOMS):
         items.append(("atoms", ((a.name,), AT.PACKAGES[i % 4])))
-    everything = tuple(a.name for a in AT.ATOMS if a.name not in ("msg_typing_names", "msg_builtin_names", "msg_keyword_names", "field_builtins"))
+    everything = tuple(a.name for a in AT.ATOMS if a.name not in ("msg_typing_names", "msg_builtin_names", "msg_keyword_names", "field_builtins", "field_builtin_then_repeated"))
     items.append(("atoms", (everything, "a.b")))
     items.append(("xref", ("a.b", "a.a")))
     items.append(("xref", ("a", "b.a")))
